@@ -18,7 +18,7 @@ import (
 	"github.com/bytom/bytom/protocol/bc/types"
 )
 
-var contextFreeMutants = []string{"height", "parent", "ts-early", "ts-future", "sig-wrong-slot", "sig-garbage",
+var contextFreeMutants = []string{"height", "parent", "ts-early", "ts-before-parent", "ts-future", "sig-wrong-slot", "sig-garbage",
 	"merkle", "tx-unbalanced", "coinbase-amount", "coinbase-missing", "coinbase-not-first", "coinbase-extra-output", "coinbase-wrong-reward", "coinbase-old-epoch-table"}
 var contextMutants = []string{"spend-missing", "double-spend-cross", "double-spend-inblock", "immature-coinbase", "locked-vote", "double-spend-parent"}
 
@@ -250,6 +250,17 @@ func (nc *nodeCase) defMutant(parent, kind string) string {
 		ts = p.Timestamp + nodeInterval
 	case "ts-early":
 		ts = p.Timestamp + nodeInterval - 1 - uint64(rng.Intn(int(nodeInterval)))
+	case "ts-before-parent":
+		// strictly BEFORE the parent's timestamp (an unsigned "elapsed = ts - parent.ts" wraps)
+		g := nc.nm.blocks["b0"].Timestamp
+		if p.Timestamp <= g+1 {
+			return ""
+		}
+		span := p.Timestamp - g - 1
+		if span > 3*nodeInterval {
+			span = 3 * nodeInterval
+		}
+		ts = p.Timestamp - 1 - uint64(rng.Int63n(int64(span)))
 	case "ts-future":
 		now := uint64(time.Now().UnixNano() / 1e6)
 		ts = now + consensus.ActiveNetParams.MaxTimeOffsetMs + 600000 + nodeInterval*uint64(rng.Intn(5))
